@@ -8,7 +8,7 @@ from pathlib import Path
 
 from hypothesis import strategies as st
 
-from vlib.core import Outcome
+from vlib.core import Outcome, in_sympy_piecewise_eval
 from vlib.spec import close
 
 ID = "C17"
@@ -210,7 +210,11 @@ def _doc(draw, id_mode: str):
         fargs = [f"arg{j}" for j in range(draw(st.integers(1, 3)))]
         g = EG(draw, fargs, [])
         body = g.expr(2)
-        functions.append({"id": next(ids), "args": list(draw(st.permutations(fargs))), "body": body})
+        fid = next(ids)
+        if fid == "lambda":
+            # `lambda(...)` in libsbml's formula syntax is the lambda construct, not a call of a function with that id
+            fid = next(ids)
+        functions.append({"id": fid, "args": list(draw(st.permutations(fargs))), "body": body})
         feats.add("function_definition")
     state_syms = const_syms + [s["id"] for s in species]
     rules = []
@@ -456,12 +460,16 @@ def compare(doc: dict, m, amounts: list[float], t: float, out: Outcome, tag: str
     except (TypeError, ZeroDivisionError, OverflowError, ValueError) as e:
         out.skipped = f"imported-model-undefined-at-initial-state:{type(e).__name__}"
         return
+    except Exception as e:  # noqa: BLE001
+        root_ = "ids:keywords" if "ids:keywords" in doc["features"] else ("ids:module_names" if "ids:module_names" in doc["features"] else "plain-ids")
+        out.bad(f"{tag}imported-model-cannot-be-evaluated:{type(e).__name__}:{root_}", error=repr(e)[:200])
+        return
     feats = set(doc["features"])
     def _syms(e, acc):
         if isinstance(e, list):
             if e and e[0] == "sym":
                 acc.add(e[1])
-            for x in e[1:]:
+            for x in (e[1:] if e and isinstance(e[0], str) else e):
                 _syms(x, acc)
         return acc
 
@@ -541,10 +549,29 @@ def compare(doc: dict, m, amounts: list[float], t: float, out: Outcome, tag: str
         want = dn[s["id"]] if (rep[s["id"]] == "amount" or (rep[s["id"]] == "either" and s["only_substance"])) else dn[s["id"]] / v
         got = float(rhs[name_of[s["id"]]])
         if not close(got, want, abs(want)):
+            # does a boundary species reach this species' derivative (through a kinetic law, the rules it reads, or
+            # as a participant whose coefficient is set by a rule)?
+            rule_syms = {r_["var"]: _syms(r_["expr"], set()) for r_ in doc["rules"]}
+            reach: set[str] = set()
+            b_sref = []
+            for r_ in doc["reactions"]:
+                parts = r_["reactants"] + r_["products"]
+                if not any(p_["species"] == s["id"] for p_ in parts):
+                    continue
+                todo = list(_syms(r_["law"], set())) + [p_["stoich"]["id"] for p_ in parts if isinstance(p_["stoich"], dict)]
+                while todo:
+                    x = todo.pop()
+                    if x not in reach:
+                        reach.add(x)
+                        todo.extend(rule_syms.get(x, ()))
+                b_sref += [sp[p_["species"]] for p_ in parts if isinstance(p_["stoich"], dict) and sp[p_["species"]]["boundary"]]
+            b_math = [b for b in bmath if b["id"] in reach]
             droot = root
-            if bmath:
-                b0 = bmath[0]
+            if b_math:
+                b0 = b_math[0]
                 droot = f"boundary-species-in-math:{'amount' if b0['only_substance'] else 'concentration'}-semantics:init-{b0['init_kind']}"
+            elif b_sref:
+                droot = f"boundary-species-with-rule-defined-coefficient:{'amount' if b_sref[0]['only_substance'] else 'concentration'}-semantics"
             out.bad(f"{tag}derivative-differs:{droot}", species=s["id"], representation=rep[s["id"]], got=got, want=want, state=state, only_substance=s["only_substance"], size=v)
             return
 
@@ -578,6 +605,9 @@ def examine(case: dict, ctx) -> Outcome:
             if isinstance(e, (KeyboardInterrupt, SystemExit)):
                 raise
             where = "compartment" if doc["comp_special"] else "other"
+            if in_sympy_piecewise_eval(e):
+                out.bad("read-raises:RecursionError:raised-in-sympy:Piecewise.eval-does-not-terminate", error=repr(e)[:200])
+                return out
             out.bad(f"read-raises:{type(e).__name__}:{root}:{where}", error=repr(e)[:200], special=doc["special_ids"])
             return out
         if nontriv:
@@ -608,6 +638,9 @@ def examine(case: dict, ctx) -> Outcome:
             write_doc(doc2, f2)
         m2 = sbml.read(f2)
     except Exception as e:  # noqa: BLE001
+        if in_sympy_piecewise_eval(e):
+            out.bad("session:read-raises:RecursionError:raised-in-sympy:Piecewise.eval-does-not-terminate", error=repr(e)[:200])
+            return out
         out.bad(f"session:read-raises:{type(e).__name__}", error=repr(e)[:200])
         return out
     out.nontrivial = ["session", case["stems"], key]
